@@ -52,7 +52,7 @@ package criteria_mixing
 
 //@ func (*CriteriaMixing).Apply
 //@   refines model.Bias.Apply
-//@   property C18 C07
+//@   property C18 C07 C01 C09
 //@   requires model.coherent(*listener, *current) && model.coherent(*listener, *original) && len(original.Criteria) > 0
 //@   requires forall i int, j int :: 0 <= i && i < j && j < len(current.ConsideredAlternatives) ==> current.ConsideredAlternatives[i].Id != current.ConsideredAlternatives[j].Id
 //@   requires forall i int, j int :: 0 <= i && i < j && j < len(current.NotConsideredAlternatives) ==> current.NotConsideredAlternatives[i].Id != current.NotConsideredAlternatives[j].Id
